@@ -81,6 +81,16 @@ def run_hdr(case):
                 res.fail("C11/short-buffer-accepted", "header.unpack(%d bytes) returned %r" % (len(buf), ok))
             if F().unpack(buf) is not False:
                 res.fail("C11/short-buffer-accepted", "frame.unpack(%d bytes) accepted" % len(buf))
+            # refused means refused: the header object still says what it said before
+            if (g.from_node, g.to_node, g.frame_id, g.message_type, g.reserved) != (1, 2, 3, 4, 5):
+                res.fail("C11/refused-buffer-changed-the-header", "after header.unpack(%d bytes) returned False the header reads %r" % (
+                    len(buf), (g.from_node, g.to_node, g.frame_id, g.message_type, g.reserved)))
+            f5 = F(H(0o3, 7), b"kept")
+            before5 = bytes(f5.pack())
+            f5.unpack(buf)
+            if bytes(f5.pack()) != before5:
+                res.fail("C11/refused-buffer-changed-the-frame", "after frame.unpack(%d bytes) returned False the frame packs to %s, was %s" % (
+                    len(buf), bytes(f5.pack()).hex(), before5.hex()))
         else:
             exp = struct.unpack("<HHHBB", buf[:8])
             if ok is not True or (g.from_node, g.to_node, g.frame_id, g.message_type, g.reserved) != exp:
@@ -151,13 +161,31 @@ def run_frag(case):
         h.frame_id = fid
         if case.get("reserved"):
             h.reserved = case["reserved"]
-        frame = L.Frame(h, bytes(msg) if case["bytes"] else bytearray(msg))
+        app_buf = bytes(msg) if case["bytes"] else bytearray(msg)  # the application's own message object
+        frame = L.Frame(h, app_buf)
+        if case.get("echo"):
+            # history: the message was sent once already, the peer answered, the sender took the answer in with update() and
+            # read it; now the application hands the same header and message objects to the library again.  What goes on air
+            # must be the frames of ITS message (the library must not have kept a reference that a reception writes through)
+            try:
+                net.ctl[src].node.write(frame) if case["via_write"] else net.ctl[src].node.send(h, app_buf)
+                net.settle(300)
+                net.ctl[dst].node.send(L.Header(src, 2), bytes(range(0x41, 0x41 + case["echo"])))
+                net.settle(300)
+                for _ in range(3):
+                    net.ctl[src].node.update()
+                while net.ctl[src].node.available():
+                    net.ctl[src].node.read()
+            except (SimHorizon, ValueError):
+                pass
+            out["buf_after_echo"] = bytes(app_buf)
+            out["n0"] = len(net.med.log)
         try:
             if case.get("multicast"):
                 # multicast(): the type may be given as a one-character string; the frames go to the level address
                 out["ret"] = net.ctl[src].node.multicast(frame.message, case["mtype"], 1)
             else:
-                out["ret"] = net.ctl[src].node.write(frame) if case["via_write"] else net.ctl[src].node.send(h, frame.message)
+                out["ret"] = net.ctl[src].node.write(frame) if case["via_write"] else net.ctl[src].node.send(h, app_buf)
         except SimHorizon:
             out["ret"] = "horizon"
         except ValueError:
@@ -173,6 +201,11 @@ def run_frag(case):
     except Exception as e:  # noqa: BLE001
         res.fail(exc_signature("C11/raises", e), repr(e))
         return res
+    if case.get("echo"):
+        res.label("same-objects-sent-again-after-a-reception")
+        if out.get("buf_after_echo") != msg:
+            res.fail("C11/callers-message-modified", "the application's %d-byte message object holds %r after the node received another frame" % (
+                len(msg), out.get("buf_after_echo", b"")[:40]))
     del net.med.log[:out.get("n0", 0)]
     frames = [f for f in air_frames(net.med, src=str(src))]
     got = [f["pl"] for f in frames]
@@ -291,7 +324,7 @@ def _hdr_strategy():
     typ = st.one_of(st.integers(0, 255), st.characters(min_codepoint=0, max_codepoint=255))
     return st.fixed_dictionaries({"kind": st.just("hdr"), "from": addr, "to": addr, "id": fid, "type": typ,
                                   "reserved": st.integers(0, 255), "counter": fid,
-                                  "msg": st.binary(max_size=30).map(bytes.hex), "buf": st.binary(max_size=40).map(bytes.hex)})
+                                  "msg": st.binary(max_size=30).map(bytes.hex), "buf": st.one_of(st.binary(max_size=40), st.binary(min_size=5, max_size=7)).map(bytes.hex)})
 
 
 def _frag_cases(line, per_len):
@@ -339,6 +372,17 @@ def _after_earlier_messages():
                            "nodes": nodes, "bytes": True, "via_write": via_write, "before": before, "reserved": rsv}
 
 
+def _echo_cases():
+    """a message (bytes / bytearray, via write() / send()) sent, an answer of 5 / 24 bytes received and read, the same objects sent again"""
+    for n in (1, 10, 24, 30, 60, 144):
+        for as_bytes in (False, True):
+            for via_write in (False, True):
+                for echo in (5, 24):
+                    for src, dst, nodes in ((0o1, 0, [0, 0o1]), (0, 0o4, [0, 0o4])):
+                        yield {"kind": "direct", "msg": bytes((9 * j + n) & 0xFF for j in range(n)).hex(), "type": 67, "id": 700 + n, "src": src, "dst": dst,
+                               "nodes": nodes, "bytes": as_bytes, "via_write": via_write, "echo": echo}
+
+
 def _multicast_cases():
     """multicast() with the type given as int and as one-character str (ASCII and above 127), at the fragment boundaries"""
     for n in (0, 1, 24, 25, 48, 49, 100, 144):
@@ -367,6 +411,7 @@ def parts(tier):
         return [Part("headers", "gen", _hdr_strategy, n=3000),
                 Part("fragment-attempts-lost-sweep", "enum", _loss_cases(5), exhaustive=True),
                 Part("multicast-int-and-str-types", "enum", _multicast_cases, exhaustive=True),
+                Part("same-objects-sent-again-after-a-reception", "enum", _echo_cases, exhaustive=True),
                 Part("write-after-earlier-messages", "enum", _after_earlier_messages, exhaustive=True),
                 Part("fragments-after-config-history-depth3", "enum", _history_cases(3), exhaustive=True),
                 Part("fragments-direct-all-lengths", "enum", _frag_cases(False, 2), exhaustive=True),
@@ -374,6 +419,7 @@ def parts(tier):
     return [Part("headers", "gen", _hdr_strategy, n=200000),
             Part("fragment-attempts-lost-sweep", "enum", _loss_cases(1), exhaustive=True),
             Part("multicast-int-and-str-types", "enum", _multicast_cases, exhaustive=True),
+            Part("same-objects-sent-again-after-a-reception", "enum", _echo_cases, exhaustive=True),
             Part("write-after-earlier-messages", "enum", _after_earlier_messages, exhaustive=True),
             Part("fragments-after-config-history-depth5", "enum", _history_cases(5), exhaustive=True),
             Part("fragments-direct-all-lengths", "enum", _frag_cases(False, 40), exhaustive=True),
